@@ -3,11 +3,11 @@ package c19
 import (
 	"fmt"
 	"net/http"
-	"net/http/httptest"
 	"sort"
 	"strings"
 	"sync"
 	"testing"
+	"verifharness/bed"
 
 	"k8s.io/client-go/rest"
 
@@ -24,7 +24,7 @@ import (
 func confirmNilObjectPanics() (panics bool, how string) {
 	var log []string
 	var mu sync.Mutex
-	srv := httptest.NewServer(http.HandlerFunc(func(w http.ResponseWriter, r *http.Request) {
+	srv := bed.NewServer(http.HandlerFunc(func(w http.ResponseWriter, r *http.Request) {
 		mu.Lock()
 		log = append(log, r.Method)
 		mu.Unlock()
